@@ -1157,6 +1157,86 @@ fn gen_anim(r: &mut Rng, n: usize, out: &mut dyn Write) {
     }
 }
 
+/// very long timelines: one property defined by more keyframes than an 8- or a 16-bit index can count (a baked curve).
+/// Keyframes are emitted in ascending order (the model's insertion sort is linear on sorted input), positions i/(n-1);
+/// every exact keyframe time must show exactly that keyframe's values (C02), the end must hold the last keyframe, and
+/// no time may panic or overflow (C20: judged on every op).
+fn gen_big(r: &mut Rng, n: usize, out: &mut dyn Write) {
+    for case in 0..n {
+        writeln!(out, "reset").unwrap();
+        let shape = if r.chance(1, 2) { "Q5" } else { "R4" };
+        writeln!(out, "{}", shape_line(shape)).unwrap();
+        writeln!(out, "# exactcfg").unwrap();
+        let fields = shape_fields(shape);
+        let anim_idx: Vec<usize> = fields.iter().enumerate().filter(|(_, f)| f.1).map(|(i, _)| i).collect();
+        // the first case of every run crosses the 16-bit line, the others are spread over both lines
+        let nkf: usize = if case == 0 { 65_537 } else if case == 1 { r.pick(&[256usize, 257, 258, 300]) } else { r.pick(&[255usize, 256, 257, 258, 300, 1025, 65_535, 65_536, 65_537, 65_538, 66_000, 70_001]) };
+        let dyadic = (nkf - 1).is_power_of_two();
+        let (dur, delay) = if dyadic { (r.pick(&[1.0f32, 2.0, 4.0, 0.5]), r.pick(&[0.0f32, 1.0, 0.25])) } else { (1.0, 0.0) };
+        // which animated field is the sparse one (present in every 1000th keyframe only)
+        let sparse = r.below(anim_idx.len() as u64) as usize;
+        let val = |j: usize, i: usize| -> String {
+            match fields[anim_idx[j]].0 {
+                "f32" | "f64" => b(((i * 37 + j * 11) % 1001) as f32),
+                "u8" => ((i * 7 + j) % 256).to_string(),
+                "i16" => (((i * 13 + j) % 2001) as i64 - 1000).to_string(),
+                "u16" => ((i * 17 + j) % 60_001).to_string(),
+                _ => ((i * 5 + j) % 101).to_string(),
+            }
+        };
+        let pos = |i: usize| i as f32 / (nkf - 1) as f32;
+        let mut toks: Vec<String> = Vec::with_capacity(nkf * (anim_idx.len() + 2));
+        for i in 0..nkf {
+            toks.push(b(pos(i)));
+            toks.push("-".into());
+            for j in 0..anim_idx.len() {
+                if j == sparse && i % 1000 != 0 && i + 1 != nkf { toks.push("-".into()); } else { toks.push(val(j, i)); }
+            }
+        }
+        let easing = if r.chance(1, 2) { "-".to_string() } else { r.pick(&["Linear", "InOutQuad", "OutCubic"]).to_string() };
+        writeln!(out, "tl 10 {} {} {} - 0 {} {} {}", shape, b(dur), b(delay), easing, nkf, toks.join(" ")).unwrap();
+        writeln!(out, "meta 10").unwrap();
+        let target = vals_line(r, shape, true).join(" ");
+        // C20: every one of these is a valid configuration at a valid time — no panic, finite f32 fields
+        let nopanic = format!("# nopanic C20 1 {}", anim_idx.iter().filter(|i| fields[**i].0 == "f32").map(|i| i.to_string()).collect::<Vec<_>>().join(" "));
+        let mut idx: Vec<usize> = vec![0, 1, 2, nkf / 2, nkf - 2, nkf - 1];
+        for k in [255usize, 256, 257, 65_535, 65_536, 65_537] { if k < nkf { idx.push(k); } }
+        for _ in 0..24 { idx.push(r.below(nkf as u64) as usize); }
+        for _ in 0..8 { idx.push(nkf - 1 - r.below((nkf / 8) as u64) as usize); }
+        for i in idx {
+            let t = delay + dur * pos(i);
+            writeln!(out, "upd 10 {} {}", b(t), target).unwrap();
+            writeln!(out, "{}", nopanic).unwrap();
+            if dyadic || (dur == 1.0 && delay == 0.0) {
+                let exp: Vec<String> = (0..anim_idx.len()).filter(|j| *j != sparse || i % 1000 == 0 || i + 1 == nkf)
+                    .map(|j| format!("{}={}", anim_idx[j], val(j, i))).collect();
+                writeln!(out, "# expect C02 2 {}", exp.join(" ")).unwrap();
+            }
+            if i + 1 < nkf {
+                // between two keyframes: a value between theirs (model agreement; totality)
+                let t2 = delay + dur * ((pos(i) + pos(i + 1)) * 0.5);
+                writeln!(out, "upd 10 {} {}", b(t2), target).unwrap();
+                writeln!(out, "{}", nopanic).unwrap();
+            }
+        }
+        // at and after the end: the last keyframe's values, held
+        let last: Vec<String> = (0..anim_idx.len()).map(|j| format!("{}={}", anim_idx[j], val(j, nkf - 1))).collect();
+        for t in [delay + dur, nudge(delay + dur, 1), (delay + dur) * 2.0 + 1.0, 1e9] {
+            writeln!(out, "upd 10 {} {}", b(t), target).unwrap();
+            writeln!(out, "{}", nopanic).unwrap();
+            writeln!(out, "# expect C02 2 {}", last.join(" ")).unwrap();
+        }
+        // and through an animator resting on it
+        let v0 = vals_line(r, shape, true);
+        writeln!(out, "anim 0 {} 2 0 {} 10 -", shape, v0.join(" ")).unwrap();
+        for dt in [0.0f32, delay + dur * 0.96875, dur * 0.03125, 1.0, 100.0] {
+            writeln!(out, "adv 0 {}", b(dt)).unwrap();
+            writeln!(out, "{}", nopanic).unwrap();
+        }
+        writeln!(out, "# expect C02 2 {}", last.join(" ")).unwrap();
+    }
+}
+
 /// frame-rate independence: the same animator driven by a partition of an interval and by the whole
 /// interval at once (exact binary step sizes), interleaved with state changes
 fn gen_anim6(r: &mut Rng, n: usize, out: &mut dyn Write) {
@@ -1325,6 +1405,7 @@ pub fn generate(suite: &str, seed: u64, n: usize, out: &mut dyn Write) {
         "pos" => gen_pos(&mut r, n, out),
         "tl" => gen_tl(&mut r, n, out),
         "tlw" => gen_tlw(&mut r, n, out),
+        "big" => gen_big(&mut r, n, out),
         "merged" => gen_merged(&mut r, n, out),
         "anim" => gen_anim(&mut r, n, out),
         "anim6" => gen_anim6(&mut r, n, out),
